@@ -8,7 +8,7 @@ import dbmodel as M
 import iotie
 
 PURE_KINDS = ["read", "getter", "reindex", "remove_none", "update_nochange", "update_nomatch", "len_iter", "handle_read", "update_all_same"]
-WRITE_KINDS = ["insert", "remove_some", "update_some", "drop", "remove_all", "update_raises", "insert_multiple_bad", "remove_all_match"]
+WRITE_KINDS = ["insert", "remove_some", "update_some", "drop", "remove_all", "update_raises", "insert_multiple_bad", "remove_all_match", "update_all_match"]
 MUTATING_P_CALLS = {"write", "truncate"}
 
 
@@ -47,6 +47,10 @@ def make_op(g, kind):
         return ("remove", ("noop", "tags"), None)
     if kind == "update_some":
         return ("update", one, {"tags": ("static", {"a": "changed"})}, None)
+    if kind == "update_all_match":
+        # update(query) whose query is true of EVERY stored point (the index, when valid, answers "all of them")
+        q = r.choice([("S", "time", [], ("cmp", ">", ("t", dbgen.T0 - 10 ** 9))), ("noop", "tags"), ("S", "time", [], ("cmp", ">=", ("t", dbgen.T0 - 10 ** 9)))])
+        return ("update", q, r.choice([{"tags": ("static", {"a": "changed"})}, {"unset_tags": ["nonexistent"]}, {"fields": ("static", {"zz": 1})}]), None)
     if kind == "update_raises":
         return ("update_all", {"fields": ("call", 3), "tags": ("static", {"a": "zz"})})
     if kind == "drop":
@@ -90,7 +94,12 @@ def main(tier, seed):
             for p in pts:
                 p["tags"]["same"], p["fields"]["same"] = "v", 1
             hist = [("insert", pts, None, "multiple", "compact"), ("get", g.query(), None)]
-        mode = modes[(i // len(kinds) + i) % len(modes)]
+        mode = modes[(3 * i + 5 * (i // len(kinds))) % len(modes)]          # every kind meets every mode within a few rounds (checked for 27 kinds)
+        if kind == "update_all_match":
+            # the index must be valid when the call is made: points in time order, nothing in between
+            auto = True
+            pts.sort(key=lambda p: p["time"])
+            hist = [("insert", pts, None, "multiple")]
         op = make_op(g, kind)
         if mode == "a":
             auto = False          # with auto_index the constructor itself reads (and raises) in append-only mode
